@@ -18,19 +18,20 @@ import (
 )
 
 type simcfg struct {
-	n        int
-	steps    int
-	dyn      bool
-	fairTail int
-	cache    int
-	faults   bool
-	advsigs  bool
-	dagrun   bool
+	n           int
+	steps       int
+	dyn         bool
+	fairTail    int
+	cache       int
+	faults      bool
+	passFaults  bool
+	advsigs     bool
+	dagrun      bool
 	badgerCache int
-	ff       bool
-	live     int
-	witness  bool
-	thorough bool
+	ff          bool
+	live        int
+	witness     bool
+	thorough    bool
 }
 
 type hist struct {
@@ -99,6 +100,14 @@ func (h *hist) pull(a, b *hx.Node, limit int, lose bool) {
 
 func (h *hist) after(a *hx.Node, sigPoolRan bool) {
 	before := len(a.Final)
+	if fs := h.faults[a.ID]; fs != nil && fs.PassInjected > 0 && !a.Faulty {
+		// a write of ProcessDecidedRounds failed: the model has no such fault point, the node is no longer
+		// compared with it; the implementation oracles (C02, C04, C05 committed-once) go on
+		a.Faulty = true
+		a.PassFaulty = true
+		fmt.Fprintf(h.w.Out, "F %d\n", a.ID)
+		h.actions["pass-fault-injected"]++
+	}
 	if fs := h.faults[a.ID]; fs != nil && fs.Injected > 0 && !a.Faulty {
 		a.Faulty = true
 		fmt.Fprintf(h.w.Out, "F %d\n", a.ID)
@@ -415,6 +424,9 @@ func runHistory(out *bufio.Writer, seed int64, hid int, cfg simcfg) (stats map[s
 		if fs := h.faults[a.ID]; fs != nil && rng.Intn(25) == 0 {
 			fs.FailNewEventIn = 1 + rng.Intn(4)
 		}
+		if fs := h.faults[a.ID]; fs != nil && cfg.passFaults && rng.Intn(30) == 0 {
+			fs.FailPassWriteIn = 1 + rng.Intn(8)
+		}
 		if rng.Float64() < submitRate {
 			h.submit(a)
 			if cfg.n == 1 {
@@ -507,6 +519,7 @@ func main() {
 	cache := flag.Int("cache", 10000, "store cache size")
 	dyn := flag.Bool("dyn", false, "joins and leaves")
 	faults := flag.Bool("faults", false, "inject store failures on new-event writes")
+	passFaults := flag.Bool("passfaults", false, "with -faults: also fail writes of ProcessDecidedRounds (SetFrame, SetBlock, AddConsensusEvent)")
 	advsigs := flag.Bool("advsigs", false, "extra harness-driven validator gossiping adversarial block signatures (C09)")
 	dagrun := flag.Bool("dagrun", false, "C03: re-feed the global DAG under orders / cuts / stores / batchings")
 	thorough := flag.Bool("thorough", false, "more variants")
@@ -523,7 +536,7 @@ func main() {
 		if i%7 != 0 && n < 3 && *maxn >= 3 {
 			n = 3 + master.Intn(*maxn-2)
 		}
-		cfg := simcfg{n: n, steps: *steps/2 + master.Intn(*steps), dyn: *dyn, fairTail: *tail, cache: *cache, faults: *faults, advsigs: *advsigs, dagrun: *dagrun, thorough: *thorough, badgerCache: *badgerCache, ff: *ff, live: *live, witness: *witness}
+		cfg := simcfg{n: n, steps: *steps/2 + master.Intn(*steps), dyn: *dyn, fairTail: *tail, cache: *cache, faults: *faults, passFaults: *passFaults, advsigs: *advsigs, dagrun: *dagrun, thorough: *thorough, badgerCache: *badgerCache, ff: *ff, live: *live, witness: *witness}
 		runHistory(out, master.Int63(), i, cfg)
 	}
 }
